@@ -182,7 +182,7 @@ class JSONHandler(BaseHandler):
             raise errors.MediaNotFoundError('JSON')
         try:
             return self._loads(data.decode())
-        except ValueError as err:
+        except (ValueError, RecursionError) as err:
             raise errors.MediaMalformedError('JSON') from err
 
     def deserialize(
